@@ -351,9 +351,16 @@ func stressPairs(ps *propSink) string {
 				runs++
 				select {
 				case <-done:
+					continue
 				case <-time.After(2 * time.Second):
+				}
+				// not back after 2 s: a deadlock never ends, a machine that is merely busy does — give it
+				// another 20 s before calling it a hang
+				select {
+				case <-done:
+				case <-time.After(20 * time.Second):
 					hung++
-					ps.add("C17", "program=%s(%s)||%s(%s)||Add(A)||Add(B) x6: some goroutine never returns on the real code (2 s watchdog)", n1, pat[0], n2, pat[1])
+					ps.add("C17", "program=%s(%s)||%s(%s)||Add(A)||Add(B) x6: some goroutine never returns on the real code (22 s watchdog)", n1, pat[0], n2, pat[1])
 					if hung >= 3 {
 						return fmt.Sprintf("runs=%d hung=%d (stopped early)", runs, hung)
 					}
